@@ -491,6 +491,10 @@ PROPS["C13"] = dict(
           desc="same obligation through the move-generation branch only", functions=["Evaluator::evaluate"], timeout=2400),
         K("c13", "c13_piece_square_mirror", desc="evaluate_piece_square(k, sq, White, w) == evaluate_piece_square(k, flip(sq), Black, w) for all "
           "kinds, squares and every weight in [0,1]", functions=["evaluate_piece_squares::evaluate_piece_square", "Square::flip_rank"], timeout=1500),
+        K("c13", "c13_piece_squares_is_a_sum_over_pieces", kind="bounded", bound="<= 3 own pieces per kind; per-piece score = one symbolic spike",
+          unwindset_rules=[("evaluate_piece_squares", r"iter_ones\(\)", 4)],
+          desc="evaluate_piece_squares::evaluate adds exactly evaluate_piece_square(kind, square, perspective, game-phase weight) once per own piece and "
+          "nothing else (so the term is a sum of mirror-invariant summands)", functions=["evaluate_piece_squares::evaluate"], timeout=2400),
         K("c13", "c13_variation_mirror", desc="StateVariation::from of the mirrored position == the colour-swapped one (counts, end-game weight); "
           "fully symbolic position", functions=["StateVariation::from"], timeout=1500),
         K("c13", "c13_piece_worths_mirror", desc="material term on position vs mirror", functions=["evaluate_piece_worths::evaluate"], timeout=1500),
@@ -498,10 +502,10 @@ PROPS["C13"] = dict(
         K("c13", "c13_king_edge_mirror", desc="king-to-edge term on position vs mirror, fully symbolic position, one king each",
           functions=["evaluate_force_king_to_edge::evaluate"], timeout=2400),
     ],
-    assumptions=["the square-table term of the whole position (evaluate_piece_squares::evaluate, a sum over the pieces) is mirror-invariant "
-                 "because each summand is (c13_piece_square_mirror) and mirroring is a bijection on the pieces that maps bit order "
-                 "within a board to a different order of i32 additions (commutative, no overflow for <= 32 pieces of <= 50 each): "
-                 "argued, not machine-checked",
+    assumptions=["the square-table term of the whole position is mirror-invariant: it is the sum over the own pieces of evaluate_piece_square "
+                 "(c13_piece_squares_is_a_sum_over_pieces, <= 3 pieces per kind), each summand is mirror-invariant (c13_piece_square_mirror), so is the "
+                 "game-phase weight (c13_variation_mirror), and mirroring is a bijection on the pieces that only reorders i32 additions (commutative, "
+                 "no overflow for <= 32 pieces of <= 50 each) -- the last step is argued",
                  "the move-generator oracle is the same for a position and its mirror (C01 is colour-symmetric by its contracts)"],
     technique="Kani/CBMC: oddness of the float weighting, antisymmetry of evaluate against callee contracts, per-term mirror contracts",
     level_text="Proof: the perspective antisymmetry evaluate(s,W,d) == -evaluate(s,B,d) is proved on the real control flow with "
